@@ -416,6 +416,7 @@ func (w *W) runPath(prefix []int32) {
 	w.guard = nil
 	w.noFork = false
 	w.inHook = false
+	w.stubMode = 0
 	w.notes = w.notes[:0]
 	w.pcSet = map[int32]struct{}{}
 	w.absReset()
